@@ -1,20 +1,38 @@
 /-
 C17 — proved counter-examples: the two clauses of the property that the unchanged tree
 violates at full strength.  Each theorem is kernel-evaluated (`decide`) on the models; the same
-inputs are exported as protocol lines (`witnessLines`, Driver.lean) and replayed on the real
-`caddyfile.Format` / `caddyfile.Tokenize` on every run.
+inputs (`tokenWitnesses`, `idemWitnesses` in Driver.lean, one per known-finding class) are
+exported as protocol lines and replayed on the real `caddyfile.Format` / `caddyfile.Tokenize`
+on every run.
 -/
 import CaddyModel.C17.Spec
 import CaddyModel.C17.Driver
 
 namespace CaddyModel.C17
 
-/-- FULL STATEMENT (false): `∀ x, preservesTokens x`.  A trailing `{` is dropped. -/
+/-- FULL STATEMENT (false on the unchanged tree):
+    `∀ x, preservesTokens x` — "the formatted text tokenizes to the same tokens with the same
+    line grouping as the original".  Counter-example: a trailing `{` is dropped. -/
 theorem fmt_preserves_tokens_full_fails : ∃ x : List Rune, preservesTokens x = false :=
   ⟨runes "a {", by decide⟩
 
-/-- FULL STATEMENT (false): `∀ x, idempotentAt x`.  `a< <⏎<` ↦ `a<<⏎<` ↦ `a<<<`. -/
+/-- FULL STATEMENT (false on the unchanged tree):
+    `∀ x, idempotentAt x` — "formatting is idempotent".
+    Counter-example: `a< <⏎<` ↦ `a<<⏎<` ↦ `a<<<`. -/
 theorem fmt_idempotent_full_fails : ∃ x : List Rune, idempotentAt x = false :=
   ⟨runes "a< <\n<", by decide⟩
+
+set_option maxRecDepth 1000000 in
+/-- every exported token-stream witness (one per known class) fails in the model -/
+theorem token_witnesses_all_fail : tokenWitnesses.all (fun s => !preservesTokens (runes s)) = true := by
+  decide
+
+set_option maxRecDepth 1000000 in
+/-- every exported idempotence witness (one per known class) fails in the model -/
+theorem idem_witnesses_all_fail : idemWitnesses.all (fun s => !idempotentAt (runes s)) = true := by
+  decide
+
+/-- non-vacuity of the spec predicates: they are TRUE on ordinary inputs -/
+example : preservesTokens (runes "a {\n  b\n}\n") = true ∧ idempotentAt (runes "a {\n  b\n}\n") = true := by decide
 
 end CaddyModel.C17
